@@ -142,6 +142,7 @@ func randomWorld(rng *rand.Rand, focus string) (worldCfg, *budget, probes) {
 		cfg.Calls[i].DropFail = rng.IntN(5) == 0
 		if !g.Send && rng.IntN(5) == 0 {
 			cfg.Calls[i].FailSendAt = rng.IntN(mr + 1)
+			cfg.Calls[i].FailKind = 1 + rng.IntN(3)
 		}
 		b.Ack[i] = rng.IntN(2)
 		b.Res[i] = rng.IntN(3)
@@ -157,6 +158,7 @@ func randomWorld(rng *rand.Rand, focus string) (worldCfg, *budget, probes) {
 	b.Wrong = rng.IntN(2)
 	if g.Send {
 		b.SendFail = rng.IntN(2)
+		b.SendFailKinds = []int{1 + rng.IntN(3)}
 	}
 	b.CancelEarly = rng.IntN(4) == 0
 	b.LateRes = rng.IntN(2) == 0
@@ -259,9 +261,20 @@ func c25Grid() (family, int) {
 		half       bool
 		kind       string
 		shape      string
+		failKind   int
 	}
 	var cases []cse
 	for mr := 1; mr <= 6; mr++ {
+		// failing transmission k = 0..mr with a context error although the call's
+		// context is alive (Canceled is swallowed by the retry loop, DeadlineExceeded is
+		// not), no ack, then the clock runs past every remaining deadline
+		for failAt := 0; failAt <= mr; failAt++ {
+			for _, fk := range []int{2, 3} {
+				for _, half := range []bool{false, true} {
+					cases = append(cases, cse{mr: mr, ackPos: -1, failAt: failAt, half: half, kind: "ack", shape: "-", failKind: fk})
+				}
+			}
+		}
 		for ackPos := -1; ackPos < mr; ackPos++ {
 			for _, conc := range []bool{false, true} {
 				if ackPos < 0 && conc {
@@ -271,13 +284,13 @@ func c25Grid() (family, int) {
 					for _, half := range []bool{false, true} {
 						// every case with the plain single-id ack plus one batch layout
 						// (cycled so that every layout meets every grid position class)
-						cases = append(cases, cse{mr, ackPos, conc, failAt, half, "ack", "-"})
+						cases = append(cases, cse{mr, ackPos, conc, failAt, half, "ack", "-", 1})
 						if ackPos >= 0 {
-							cases = append(cases, cse{mr, ackPos, conc, failAt, half, "ack", ackShapes[1+len(cases)%(len(ackShapes)-1)]})
+							cases = append(cases, cse{mr, ackPos, conc, failAt, half, "ack", ackShapes[1+len(cases)%(len(ackShapes)-1)], 1})
 						}
 					}
 					if ackPos >= 0 {
-						cases = append(cases, cse{mr, ackPos, conc, failAt, false, "res", "-"})
+						cases = append(cases, cse{mr, ackPos, conc, failAt, false, "res", "-", 1})
 					}
 				}
 			}
@@ -286,7 +299,7 @@ func c25Grid() (family, int) {
 	return family{name: "c25-grid", run: func(idx int, _ []int) *result {
 		cs := cases[idx%len(cases)]
 		cfg := mkCfg(1, false, time.Second, cs.mr, gating{Hooks: map[string]bool{}})
-		cfg.Calls[0].FailSendAt = cs.failAt
+		cfg.Calls[0].FailSendAt, cfg.Calls[0].FailKind = cs.failAt, cs.failKind
 		b := mkBudget(cfg)
 		b.Ack[0], b.Res[0], b.Travel, b.TravelMs = 1, 1, 4*cs.mr+8, []int{1000, 500}
 		b.AckShapes = []string{cs.shape}
